@@ -198,13 +198,15 @@ class C32(core.Check):
                'solid-colour case (no tile pattern, no background pattern), tied by correspondence on the '
                'pixel buffer of a real Session; ByteMatrix slicing and GraphicsViewPort clipping are modelled '
                '(cell reads / range writes), not verified',
-               'cases without VIEW compare a walled sub-rectangle of the screen with the model run on that '
-               'rectangle as viewport (the rest of the screen must stay unchanged); WINDOW/STEP coordinates, '
-               'tile and background patterns are not part of the modelled case']
+               'most cases without VIEW compare a walled sub-rectangle of the screen with the model run on that '
+               'rectangle as viewport (the rest of the screen must stay unchanged), a few compare the full '
+               '320x200 screen by checksum; WINDOW/STEP coordinates, tile and background patterns are not '
+               'part of the modelled case']
     PARTIAL = None
     RULE = ('pictures (maze, spiral, thin diagonals, noise, combs, blobs; sprinkled with cells already of the fill '
             'colour and third colours) in a viewport of at most 26x18 pixels placed by VIEW / VIEW SCREEN / walled '
-            'rectangle in SCREEN 1, 2, 7, 9; seeds inside, on border cells, in the margin and far outside; fill and '
+            'rectangle in SCREEN 1, 2, 7, 9, plus full-screen 320x200 pictures of random rectangles without VIEW '
+            '(compared by checksum); seeds inside, on border cells, in the margin and far outside; fill and '
             'border attributes incl. omitted, clamped (> number of attributes) and illegal (<0, >255, >32767). '
             'non-trivial = PAINT changed at least one pixel; distinct by hash of (case, output)')
     histogram = None
@@ -262,6 +264,11 @@ class C32(core.Check):
             mk(1, None, [316, 196], [[3, 3, 3, 3], [3, 0, 0, 0], [3, 0, 3, 0], [3, 0, 0, 0]], [319, 199], 2, 3,
                kind='walled'),
         ]
+        # full screen without VIEW: a box with a gap, a bar already in the fill colour, seed inside the box
+        cases.append({'scr': 1, 'view': None, 'rect': [0, 0], 'rows': [[0]],
+                      'rects': [[40, 30, 100, 1, 3], [40, 90, 100, 1, 3], [40, 30, 1, 61, 3], [139, 30, 1, 61, 3],
+                                [139, 50, 1, 2, 0], [60, 60, 30, 1, 2]],
+                      'seed': [50, 40], 'c': 2, 'b': 3, 'fg': None, 'kind': 'full', 'pic': 'rects'})
         return cases
 
     def gen_cases(self, n):
@@ -271,7 +278,13 @@ class C32(core.Check):
         def bump(k, v):
             hist[k][str(v)] = hist[k].get(str(v), 0) + 1
         out = []
-        for _ in range(n):
+        for k in range(n):
+            if k % 600 == 7:
+                out.append(self.gen_full(rng))
+                bump('mode', out[-1]['scr'])
+                bump('kind', 'full')
+                bump('pic', 'rects')
+                continue
             scr = rng.choice([1, 1, 7, 7, 9, 9, 2])
             sw, sh, na = MODES[scr]
             kind = rng.choice(['view', 'view', 'viewscreen', 'walled', 'walled'])
@@ -405,6 +418,81 @@ class C32(core.Check):
         self.histogram = hist
         return out
 
+    @staticmethod
+    def gen_full(rng):
+        """full screen (320x200 modes), no VIEW: walls and pre-coloured patches given as rectangles"""
+        scr = rng.choice([1, 7])
+        sw, sh, na = MODES[scr]
+        border = rng.randrange(1, na)
+        fill = rng.choice([a for a in range(na) if a != border])
+        rects = []
+        for _ in range(rng.randrange(8, 40)):
+            r = rng.random()
+            x, y = rng.randrange(sw), rng.randrange(sh)
+            if r < 0.4:
+                w, h = rng.randrange(1, sw - x + 1), 1
+            elif r < 0.8:
+                w, h = 1, rng.randrange(1, sh - y + 1)
+            else:
+                w, h = rng.randrange(1, min(60, sw - x) + 1), rng.randrange(1, min(40, sh - y) + 1)
+            a = border if rng.random() < 0.8 else rng.randrange(na)
+            rects.append([x, y, w, h, a])
+        # gaps
+        for _ in range(rng.randrange(0, 12)):
+            x, y = rng.randrange(sw), rng.randrange(sh)
+            rects.append([x, y, min(rng.randrange(1, 4), sw - x), min(rng.randrange(1, 4), sh - y), 0])
+        case = {'scr': scr, 'view': None, 'rect': [0, 0], 'rows': [[0]], 'rects': rects, 'seed': [0, 0],
+                'c': fill, 'b': border, 'fg': None, 'kind': 'full', 'pic': 'rects'}
+        before = C32.full_before(case)
+        for _ in range(30):
+            seed = [rng.randrange(sw), rng.randrange(sh)]
+            if before[seed[1]][seed[0]] not in (border, fill):
+                break
+        case['seed'] = seed
+        return case
+
+    @staticmethod
+    def full_before(case):
+        sw, sh, na = MODES[case['scr']]
+        buf = [bytearray(sw) for _ in range(sh)]
+        for x, y, w, h, a in case['rects']:
+            for yy in range(y, y + h):
+                buf[yy][x:x + w] = bytes([a]) * w
+        return buf
+
+    @staticmethod
+    def digest(rows):
+        acc = 0
+        for r in rows:
+            for p in r:
+                acc = (acc * 31 + p + 1) % 1000000007
+        return acc
+
+    def run_full(self, case):
+        scr = case['scr']
+        s = self.session(scr)
+        sw, sh, na = MODES[scr]
+        with core.time_limit(120):
+            s.execute('NEW')
+            raw = s._impl.display.apage.pixels._pixels
+            msg = s.execute(self.setup_stmt(case))
+            if msg:
+                raise RuntimeError('setup failed: %r' % msg)
+            before = self.full_before(case)
+            for y in range(sh):
+                raw[y, 0:sw] = [bytearray(before[y])]
+            s.execute(self.program(case))
+            s.execute('RUN')
+            e, f = int(s.evaluate('E')), int(s.evaluate('F'))
+            if f != 1:
+                raise RuntimeError('program did not finish (E=%d F=%d)' % (e, f))
+            after = [bytearray(r) for r in raw.to_rows()]
+        cache = self.__dict__.setdefault('_full', {})
+        if len(cache) > 40:
+            cache.clear()
+        cache[core.sha(case)] = after
+        return e, after
+
     # ---------------------------------------------------------------- implementation
     _sessions = None
 
@@ -493,6 +581,9 @@ class C32(core.Check):
             return e, rows, after, outside
 
     def impl(self, case):
+        if case.get('kind') == 'full':
+            e, after = self.run_full(case)
+            return [1, e, 0] if e else [0, self.digest(after), 0]
         e, before, after, outside = self.run_paint(case)
         if e:
             return [1, e, outside]
@@ -522,6 +613,12 @@ class C32(core.Check):
                     % (opt(case['c']), opt(case['b'])))
         na = MODES[scr][2]
         fg = case['fg'] if case.get('fg') is not None else DEFAULT_FG[scr]
+        if case.get('kind') == 'full':
+            sw, sh, _ = MODES[scr]
+            rects = '[' + ';'.join('(%d,%d,%d,%d,%d)' % tuple(r) for r in case['rects']) + ']'
+            return ('(enc_digest (paint false %d %d (mkBounds 0 0 %d %d) (draw_rects (blank_bitmap %d %d) %s) '
+                    '%s %s %s %s) ++ [0])' % (na, fg, sw - 1, sh - 1, sw, sh, rects,
+                                              z(case['seed'][0]), z(case['seed'][1]), opt(case['c']), opt(case['b'])))
         (bx0, by0, bx1, by1), (ox, oy) = self.geometry(case)
         rows = '[' + ';'.join(core.zl(r) for r in case['rows']) + ']'
         return ('(enc_paint (paint false %d %d (mkBounds %s %s %s %s) (mkBitmap %s %s %s) %s %s %s %s) ++ [0])' % (
@@ -534,6 +631,8 @@ class C32(core.Check):
         if scr == 0:
             return None if out[:2] == [1, 5] else 'PAINT in text mode did not raise Illegal function call'
         sw, sh, na = MODES[scr]
+        if case.get('kind') == 'full':
+            return self.oracle_full(case, out)
         rows = case['rows']
         rh, rw = len(rows), len(rows[0])
         if out[0] != 0:
@@ -582,7 +681,40 @@ class C32(core.Check):
                         rx + i, ry + j)
         return None
 
+    def oracle_full(self, case, out):
+        if out[0] != 0:
+            return None
+        after = self.__dict__.get('_full', {}).get(core.sha(case))
+        if after is None:
+            after = self.run_full(case)[1]
+        if self.digest(after) != out[1]:
+            return None     # stale cache: not the run that produced `out`
+        sw, sh, na = MODES[case['scr']]
+        before = self.full_before(case)
+        fg = DEFAULT_FG[case['scr']]
+        c, b = case['c'], case['b']
+        fill = ref_attr(na, fg, -1 if c is None else c)
+        border = ref_attr(na, fg, (-1 if c is None else c) if b is None else b)
+        region = bfs_region(lambda x, y: before[y][x], (0, 0, sw - 1, sh - 1), tuple(case['seed']), border)
+        prefilled = any(before[y][x] == fill for x, y in region)
+        for y in range(sh):
+            rb, ra = before[y], after[y]
+            if rb == ra and (prefilled or not any((x, y) in region for x in range(sw))):
+                continue
+            for x in range(sw):
+                inreg = (x, y) in region
+                if ra[x] != rb[x]:
+                    if not inreg:
+                        return 'pixel (%d,%d) outside the region changed %d -> %d' % (x, y, rb[x], ra[x])
+                    if ra[x] != fill:
+                        return 'pixel (%d,%d) changed to %d, not to the fill attribute %d' % (x, y, ra[x], fill)
+                if inreg and not prefilled and ra[x] != fill:
+                    return 'region pixel (%d,%d) not filled (region has no pixel in the fill attribute)' % (x, y)
+        return None
+
     def nontrivial(self, case, out):
+        if case.get('kind') == 'full':
+            return out[0] == 0 and out[1] != self.digest(self.full_before(case))
         if out[0] != 0 or case['scr'] == 0:
             return False
         flat = [a for row in case['rows'] for a in row]
@@ -596,6 +728,13 @@ class C32(core.Check):
         case without VIEW is kept, otherwise the region would leave the compared rectangle)"""
         rows = case['rows']
         if case['scr'] == 0:
+            return
+        if case.get('kind') == 'full':
+            rs = case['rects']
+            for i in range(len(rs)):
+                d = dict(case)
+                d['rects'] = rs[:i] + rs[i + 1:]
+                yield d
             return
         rh, rw = len(rows), len(rows[0])
         sw, sh, _ = MODES[case['scr']]
